@@ -9,6 +9,7 @@ CONSTANTS
   CtxMayExpire = TRUE
   ClientMayClose = TRUE
   HandlerMayClose = TRUE
+  HandlerMayHijack = TRUE
   StartMayFail = TRUE
   SpareFields = TRUE
   SeqRestart = FALSE
